@@ -74,6 +74,9 @@ def step (st : St) : List String → St × String
   | ["create", ops, srs] => issue st (.create (natList ops) (natList srs))
   | ["savepoint", ops, srs] => issue st (.savepoint (natList ops) (natList srs))
   | ["opack", op, cp, tag] => issue st (.opAck (natOr op) (natOr cp) (natOr tag))
+  -- an acknowledgement with an unusual payload (e.g. no key group range): the store does not inspect payloads,
+  -- it records the entry like any other
+  | ["opack", op, cp, tag, _] => issue st (.opAck (natOr op) (natOr cp) (natOr tag))
   | ["srack", sr, cp, splits] => issue st (.srAck (natOr sr) (natOr cp) (natList splits))
   | ["redeploy"] => issue st .redeploy
   | ["hold"] => if st.held.isSome then (st, "skipped") else ({ st with armed := true }, "armed")
